@@ -9,7 +9,7 @@
 use camharness::*;
 use cameleon_genapi::builder::GenApiBuilder;
 use cameleon_genapi::prelude::*;
-use cameleon_genapi::store::{CacheSink, DefaultNodeStore, DefaultValueStore};
+use cameleon_genapi::store::{CacheSink, DefaultCacheStore, DefaultNodeStore, DefaultValueStore};
 use cameleon_genapi::{Device, GenApiError, GenApiResult, NodeId, NodeStore, ValueCtxt};
 
 // ───────────────────────────── abstract description ─────────────────────────────
@@ -152,6 +152,8 @@ pub struct Graph {
     pub ro: (usize, usize),
     /// ids referenced by name but never defined
     pub ghosts: Vec<usize>,
+    /// render registers with `<Cachable>` + `<pInvalidator>port` (the cached twin of C18)
+    pub cached_xml: std::cell::Cell<bool>,
 }
 
 pub fn name(id: usize) -> String {
@@ -359,6 +361,15 @@ impl Graph {
             out.push_str(&format!("<AccessMode>{}</AccessMode>", m.s()));
         }
         out.push_str(&format!("<pPort>{}</pPort>", name(r.port)));
+        if self.cached_xml.get() {
+            let mode = ["WriteThrough", "WriteAround", "NoCache", "WriteThrough"][(r.port + r.addrs.len() + r.base.iam.map_or(0, |m| m as usize)) % 4];
+            out.push_str(&format!("<Cachable>{mode}</Cachable>"));
+            for (id, k) in self.nodes.iter().enumerate() {
+                if matches!(k, Kind::Port { .. }) {
+                    out.push_str(&format!("<pInvalidator>{}</pInvalidator>", name(id)));
+                }
+            }
+        }
     }
 
     fn node_xml(&self, id: usize, out: &mut String) {
@@ -655,34 +666,6 @@ pub struct Dev {
     pub rec: bool,
 }
 
-fn is_nan64(n: u64) -> bool {
-    (n >> 52) & 0x7ff == 0x7ff && n & ((1 << 52) - 1) != 0
-}
-fn is_nan32(n: u32) -> bool {
-    (n >> 23) & 0xff == 0xff && n & ((1 << 23) - 1) != 0
-}
-/// the device stores NaN-looking 4/8-byte writes as the canonical quiet NaN (see the model)
-fn canon_write(d: &[u8]) -> Vec<u8> {
-    if d.len() == 8 {
-        let a: [u8; 8] = d.try_into().unwrap();
-        if is_nan64(u64::from_le_bytes(a)) {
-            return 0x7ff8_0000_0000_0000u64.to_le_bytes().to_vec();
-        }
-        if is_nan64(u64::from_be_bytes(a)) {
-            return 0x7ff8_0000_0000_0000u64.to_be_bytes().to_vec();
-        }
-    } else if d.len() == 4 {
-        let a: [u8; 4] = d.try_into().unwrap();
-        if is_nan32(u32::from_le_bytes(a)) {
-            return 0x7fc0_0000u32.to_le_bytes().to_vec();
-        }
-        if is_nan32(u32::from_be_bytes(a)) {
-            return 0x7fc0_0000u32.to_be_bytes().to_vec();
-        }
-    }
-    d.to_vec()
-}
-
 impl Dev {
     fn in_range(&self, a: i64, len: usize) -> bool {
         a >= 0 && (a as u128 + len as u128) <= self.mem.len() as u128
@@ -703,7 +686,7 @@ impl Device for Dev {
         Ok(())
     }
     fn write_mem(&mut self, address: i64, data: &[u8]) -> Result<(), Box<dyn std::error::Error + Send + Sync>> {
-        let data = canon_write(data);
+        let data = data.to_vec();
         let mut ok = self.in_range(address, data.len());
         if ok {
             let a = address as usize;
@@ -724,7 +707,11 @@ impl Device for Dev {
 }
 
 pub fn log_digest(log: &[Acc]) -> u64 {
-    let mut h = FNV_INIT;
+    log_digest_from(FNV_INIT, log)
+}
+
+/// running digest: continue `h` over further entries
+pub fn log_digest_from(mut h: u64, log: &[Acc]) -> u64 {
     for a in log {
         match a {
             Acc::R(ad, l, ok) => {
@@ -864,12 +851,9 @@ pub enum Ans {
     Panic,
 }
 
+/// floats are compared by bit pattern, NaN payloads included (the model carries raw bits)
 pub fn show_float(f: f64) -> String {
-    if f.is_nan() {
-        "f:nan".into()
-    } else {
-        format!("f:{}", fbits(f))
-    }
+    format!("f:{}", fbits(f))
 }
 
 impl Ans {
@@ -907,9 +891,9 @@ pub fn err_name(e: &GenApiError) -> &'static str {
 pub type Cx = ValueCtxt<DefaultValueStore, CacheSink>;
 
 /// the real implementation under test
-pub struct Impl {
+pub struct Impl<C = CacheSink> {
     pub store: DefaultNodeStore,
-    pub cx: Cx,
+    pub cx: ValueCtxt<DefaultValueStore, C>,
     pub dev: Dev,
     /// NodeId of every abstract id (entries included)
     pub ids: Vec<Option<NodeId>>,
@@ -922,7 +906,29 @@ fn r<T>(x: GenApiResult<T>, f: impl FnOnce(T) -> Ans) -> Ans {
     }
 }
 
-impl Impl {
+fn ids_of(g: &Graph, store: &DefaultNodeStore) -> Vec<Option<NodeId>> {
+    // entries are named `$<symbolic>_<k>` with k counting EnumEntry elements in document order
+    let mut ids = vec![None; g.nodes.len()];
+    let mut k = 0usize;
+    for (id, n) in g.nodes.iter().enumerate() {
+        match n {
+            Kind::EnumEntry { .. } => {}
+            Kind::Enumeration { entries, .. } => {
+                ids[id] = store.id_by_name(name(id));
+                for e in entries {
+                    if let Kind::EnumEntry { symbolic, .. } = &g.nodes[*e] {
+                        ids[*e] = store.id_by_name(format!("${symbolic}_{k}"));
+                        k += 1;
+                    }
+                }
+            }
+            _ => ids[id] = store.id_by_name(name(id)),
+        }
+    }
+    ids
+}
+
+impl Impl<CacheSink> {
     pub fn build(g: &Graph) -> Result<Impl, String> {
         let xml = g.xml();
         let built = catch(|| GenApiBuilder::<DefaultNodeStore>::default().no_cache().build(&xml));
@@ -931,27 +937,30 @@ impl Impl {
             Ok(Err(e)) => return Err(format!("builder error {e} on\n{xml}")),
             Ok(Ok(x)) => x,
         };
-        // entries are named `$<symbolic>_<k>` with k counting EnumEntry elements in document order
-        let mut ids = vec![None; g.nodes.len()];
-        let mut k = 0usize;
-        for (id, n) in g.nodes.iter().enumerate() {
-            match n {
-                Kind::EnumEntry { .. } => {}
-                Kind::Enumeration { entries, .. } => {
-                    ids[id] = store.id_by_name(name(id));
-                    for e in entries {
-                        if let Kind::EnumEntry { symbolic, .. } = &g.nodes[*e] {
-                            ids[*e] = store.id_by_name(format!("${symbolic}_{k}"));
-                            k += 1;
-                        }
-                    }
-                }
-                _ => ids[id] = store.id_by_name(name(id)),
-            }
-        }
+        let ids = ids_of(g, &store);
         Ok(Impl { store, cx, dev: Dev { mem: g.mem.clone(), ro: g.ro, log: vec![], rec: true }, ids })
     }
+}
 
+impl Impl<DefaultCacheStore> {
+    /// the same graph under the DEFAULT cache: every register gets a caching mode and declares the
+    /// port(s) as `pInvalidator`, so that every device write drops every cached register content
+    pub fn build_cached(g: &Graph) -> Result<Impl<DefaultCacheStore>, String> {
+        g.cached_xml.set(true);
+        let xml = g.xml();
+        g.cached_xml.set(false);
+        let built = catch(|| GenApiBuilder::<DefaultNodeStore>::default().build(&xml));
+        let (_, store, cx) = match built {
+            Err(()) => return Err(format!("builder (cached) panicked on\n{xml}")),
+            Ok(Err(e)) => return Err(format!("builder (cached) error {e} on\n{xml}")),
+            Ok(Ok(x)) => x,
+        };
+        let ids = ids_of(g, &store);
+        Ok(Impl { store, cx, dev: Dev { mem: g.mem.clone(), ro: g.ro, log: vec![], rec: true }, ids })
+    }
+}
+
+impl<C: cameleon_genapi::CacheStore> Impl<C> {
     pub fn abs_id(&self, nid: NodeId) -> usize {
         self.ids.iter().position(|x| *x == Some(nid)).unwrap_or(usize::MAX)
     }
@@ -1088,6 +1097,26 @@ impl Impl {
     }
 }
 
+impl<C: cameleon_genapi::CacheStore> Impl<C> {
+    /// `IValue<f64> for NodeId::value`-like reading: integer `as f64`, float, enumeration `as f64`
+    pub fn probe_num_as_float(&mut self, g: &Graph, n: usize) -> Option<f64> {
+        if g.is_int(n) {
+            if let Ans::Int(i) = self.probe(&Op::IntValue(n)) {
+                return Some(i as f64);
+            }
+        } else if g.is_float(n) {
+            if let Ans::Float(f) = self.probe(&Op::FloatValue(n)) {
+                return Some(f);
+            }
+        } else if g.is_enum(n) {
+            if let Ans::Int(i) = self.probe(&Op::EnumCurrentValue(n)) {
+                return Some(i as f64);
+            }
+        }
+        None
+    }
+}
+
 // ───────────────────────────── C18 oracle: Readable / Writable on the abstract graph ─────────────────────────────
 
 /// The property statement evaluated on the abstract description; current values of
@@ -1098,7 +1127,7 @@ pub struct Access<'a> {
 }
 
 impl<'a> Access<'a> {
-    fn ctl(&self, im: &mut Impl, c: usize) -> Option<bool> {
+    pub fn ctl(&self, im: &mut Impl, c: usize) -> Option<bool> {
         if self.g.is_bool(c) {
             match im.probe(&Op::BoolValue(c)) {
                 Ans::Bool(b) => Some(b),
@@ -1106,7 +1135,7 @@ impl<'a> Access<'a> {
             }
         } else if self.g.is_int(c) {
             match im.probe(&Op::IntValue(c)) {
-                Ans::Int(i) => Some(i == 1),
+                Ans::Int(i) => Some(i != 0), // GenApi: non-zero = true (independent of the code's bool_from_id)
                 _ => None,
             }
         } else {
@@ -1172,6 +1201,53 @@ impl<'a> Access<'a> {
     fn vars(&self, im: &mut Impl, fm: &Fm, d: usize) -> bool {
         fm.vars.iter().all(|(_, v)| self.formula_ref(*v) && self.acc(im, *v, false, d))
     }
+    /// Is there, in what the access query of `n` may look at, an ingredient without a truth value /
+    /// value / of the wrong kind?  An `Err` answer of `is_readable` / `is_writable` is legitimate only
+    /// then (the expected error classes: `InvalidNode` for a controlling node that is neither boolean
+    /// nor integer kind or does not exist, a String pValue that is not a string node, a pIndex
+    /// selector that is not integer kind, a formula variable / converter pValue that is not integer,
+    /// float, boolean or enumeration kind; otherwise the error class with which evaluating the
+    /// controlling node / selector itself fails, e.g. `Device`, `InvalidBuffer`, `InvalidData`).
+    pub fn trouble(&self, im: &mut Impl, n: usize, d: usize) -> bool {
+        if d == 0 {
+            return true;
+        }
+        let d = d - 1;
+        let k = match self.g.kind(n) {
+            Some(k) => k,
+            None => return true,
+        };
+        let b = k.base();
+        for c in [b.imp, b.avail, b.locked].into_iter().flatten() {
+            if self.ctl(im, c).is_none() {
+                return true;
+            }
+        }
+        let son = |s: &Self, im: &mut Impl, v: &Son| match v {
+            Son::Slot(_) => false,
+            Son::Node(p) => s.trouble(im, *p, d),
+        };
+        match k {
+            Kind::Integer { vk, .. } | Kind::Float { vk, .. } => match vk {
+                VK::Value(_) => false,
+                VK::PValue { p, .. } => self.trouble(im, *p, d) || vk.copies().iter().any(|c| self.trouble(im, *c, d)),
+                VK::PIndex { sel, entries, dflt } => {
+                    !self.g.is_int(*sel) || self.sel_value(im, *sel).is_none() || self.trouble(im, *sel, d) || entries.iter().any(|e| son(self, im, &e.1)) || son(self, im, dflt)
+                }
+            },
+            Kind::Boolean { value, .. } | Kind::Enumeration { value, .. } | Kind::Command { value, .. } => son(self, im, value),
+            Kind::Str { value, .. } => match value {
+                Son::Slot(_) => false,
+                Son::Node(p) => !self.g.is_str(*p) || self.trouble(im, *p, d),
+            },
+            Kind::Converter { fm, pvalue, .. } => {
+                !self.formula_ref(*pvalue) || self.trouble(im, *pvalue, d) || fm.vars.iter().any(|(_, v)| !self.formula_ref(*v) || self.trouble(im, *v, d))
+            }
+            Kind::SwissKnife { fm, .. } => fm.vars.iter().any(|(_, v)| !self.formula_ref(*v) || self.trouble(im, *v, d)),
+            _ => false,
+        }
+    }
+
     /// `Readable` (write = false) / `Writable` (write = true) with `d` reference levels left
     pub fn acc(&self, im: &mut Impl, n: usize, write: bool, d: usize) -> bool {
         if d == 0 {
@@ -1436,12 +1512,20 @@ impl<'a> B<'a> {
                 addrs.push(AddrKind::Isk(k));
             }
         }
-        let length = if allow_node_len && self.rng.chance(1, 12) {
-            // pLength: only a constant IntSwissKnife (nothing can write it), because a huge positive
-            // length makes `vec![0; n]` abort the process (allocation failure is outside the model)
-            let formula = self.rng.pick(&["4", "8", "2", "1", "(2 + 2)", "3", "16", "(0 - 1)", "0", "(1 << 3)"]).to_string();
-            self.nodes.push(Kind::SwissKnife { b: Base::default(), fm: Fm::default(), formula, int: true, embedded: false });
-            Ion::Node(self.nodes.len() - 1)
+        let length = if allow_node_len && self.rng.chance(1, 8) {
+            if self.rng.chance(2, 3) {
+                // pLength: a 1-byte unsigned IntReg on device memory — the length is a *current* value
+                // (<= 255, so no allocation hazard) and changes whenever that byte is written
+                let a = self.rng.below(MEM_LEN as u64) as i64;
+                let r = RegBase { base: Base::default(), addrs: vec![AddrKind::Addr(Ion::Imm(a))], length: Ion::Imm(1), am: Some(AM::RW), port: self.port };
+                self.nodes.push(Kind::IntReg { r, signed: false, be: false });
+                Ion::Node(self.nodes.len() - 1)
+            } else {
+                // … or a constant IntSwissKnife (nothing can write it; covers negative and odd lengths)
+                let formula = self.rng.pick(&["4", "8", "2", "1", "(2 + 2)", "3", "16", "(0 - 1)", "0", "(1 << 3)"]).to_string();
+                self.nodes.push(Kind::SwissKnife { b: Base::default(), fm: Fm::default(), formula, int: true, embedded: false });
+                Ion::Node(self.nodes.len() - 1)
+            }
         } else if allow_node_len && self.rng.chance(1, 15) {
             Ion::Imm(*self.rng.pick(&[0, 3, 5, 16, 7]))
         } else if allow_node_len && self.rng.chance(1, 60) {
@@ -1463,43 +1547,75 @@ impl<'a> B<'a> {
     /// variables / constants / expressions of a formula node and the identifiers a formula may use
     fn fm(&mut self, int: bool) -> (Fm, Vec<String>) {
         let mut fm = Fm::default();
-        let mut idents = vec![];
-        let nv = self.rng.below(4);
+        let mut idents: Vec<String> = vec![];
+        let nv = self.rng.below(5);
         for i in 0..nv {
             if let Some(v) = self.formula_ref() {
-                let base = ["A", "B", "C", "D"][i as usize].to_string();
+                // names: mostly fresh, sometimes a duplicate of an earlier variable (the later binding
+                // shadows), sometimes TO / FROM (shadowing what the converter inserts first)
+                let base = match self.rng.below(10) {
+                    0 if !fm.vars.is_empty() => fm.vars[self.rng.below(fm.vars.len() as u64) as usize].0.split('.').next().unwrap().to_string(),
+                    1 => self.rng.pick(&["TO", "FROM"]).to_string(),
+                    _ => ["A", "B", "C", "D", "F"][i as usize % 5].to_string(),
+                };
                 let k = self.nodes.get(v);
-                let suffix = match self.rng.below(10) {
-                    0 | 1 if k.map_or(false, |k| k.is_int() || k.is_float()) => *self.rng.pick(&[".Min", ".Max", ".Inc"]),
-                    2 => ".Value",
-                    3 if k.map_or(false, |k| k.is_enum()) => ".Enum.E0",
-                    4 if self.rng.chance(1, 6) => *self.rng.pick(&[".Foo", ".Min.X", ".Enum.Nope", ".Max"]),
-                    _ => "",
+                let entry_syms: Vec<String> = match k {
+                    Some(Kind::Enumeration { entries, .. }) => entries
+                        .iter()
+                        .filter_map(|e| match &self.nodes[*e] {
+                            Kind::EnumEntry { symbolic, .. } => Some(symbolic.clone()),
+                            _ => None,
+                        })
+                        .collect(),
+                    _ => vec![],
+                };
+                let suffix: String = match self.rng.below(10) {
+                    0 | 1 if k.map_or(false, |k| k.is_int() || k.is_float()) => self.rng.pick(&[".Min", ".Max", ".Inc"]).to_string(),
+                    2 => ".Value".into(),
+                    0..=5 if !entry_syms.is_empty() => format!(".Enum.{}", self.rng.pick(&entry_syms)),
+                    6 if self.rng.chance(1, 5) => self.rng.pick(&[".Foo", ".Min.X", ".Enum.Nope", ".Max"]).to_string(),
+                    _ => String::new(),
                 };
                 let n = format!("{base}{suffix}");
                 idents.push(n.clone());
                 fm.vars.push((n, v));
             }
         }
+        let plain = |idents: &Vec<String>| -> Vec<String> { idents.iter().filter(|n| !n.contains('.')).cloned().collect() };
         let nc = self.rng.below(3);
         for i in 0..nc {
-            let n = if self.rng.chance(1, 8) && !idents.is_empty() { self.rng.pick(&idents).clone() } else { format!("K{i}") };
+            let pl = plain(&idents);
+            let n = match self.rng.below(8) {
+                0 | 1 if !pl.is_empty() => self.rng.pick(&pl).clone(), // shadows a variable / earlier constant
+                2 if self.rng.chance(1, 2) => self.rng.pick(&["TO", "FROM"]).to_string(),
+                _ => format!("K{i}"),
+            };
             let c = if int || self.rng.bool() { Lit::I(self.small()) } else { Lit::F(self.float()) };
             let c = match c {
                 Lit::F(f) if !f.is_finite() => Lit::F(1.5),
                 c => c,
             };
-            if !n.contains('.') {
-                idents.push(n.clone());
-                fm.consts.push((n, c));
-            }
-        }
-        let ne = self.rng.below(3);
-        for i in 0..ne {
-            let n = format!("X{i}");
-            let e = gen_expr(self.rng, &idents, 2, int);
             idents.push(n.clone());
-            fm.exprs.push((n, e));
+            fm.consts.push((n, c));
+        }
+        let ne = self.rng.below(4);
+        for i in 0..ne {
+            let pl = plain(&idents);
+            // an expression that re-uses an earlier identifier (variable, constant, expression, TO / FROM)
+            // shadows it; its body is literal-only, because a body mentioning its own name makes the
+            // implementation recurse until the stack overflows (C05, outside the statement)
+            if !pl.is_empty() && self.rng.chance(1, 3) {
+                let n = if self.rng.chance(1, 4) { self.rng.pick(&["TO", "FROM"]).to_string() } else { self.rng.pick(&pl).clone() };
+                let e = gen_expr(self.rng, &[], 1, int); // no identifiers available: literals (and the unbound `Z`)
+                idents.push(n.clone());
+                fm.exprs.push((n, e));
+            } else {
+                let n = format!("X{i}");
+                let usable: Vec<String> = idents.iter().filter(|x| **x != n).cloned().collect();
+                let e = gen_expr(self.rng, &usable, 2, int);
+                idents.push(n.clone());
+                fm.exprs.push((n, e));
+            }
         }
         (fm, idents)
     }
@@ -1774,6 +1890,7 @@ pub const MEM_LEN: usize = 160;
 
 pub fn gen_graph(rng: &mut Rng, cfg: &GenCfg) -> Graph {
     let mut mem = rng.bytes(MEM_LEN);
+    let rng: &mut Rng = rng;
     // friendlier content: small numbers, ASCII text, a few floats
     for i in 0..MEM_LEN {
         match rng.below(10) {
@@ -1813,7 +1930,38 @@ pub fn gen_graph(rng: &mut Rng, cfg: &GenCfg) -> Graph {
         b.add_node();
         guard += 1;
     }
-    Graph { nodes: b.nodes, slots: b.slots, mem, ro, ghosts: b.ghosts }
+    let nodes = b.nodes;
+    let slots = b.slots;
+    let ghosts = b.ghosts;
+    // bytes that serve as pLength mostly hold a plausible length
+    for k in &nodes {
+        if let Some(r) = k.reg() {
+            if let Ion::Node(l) = r.length {
+                if let Some(Kind::IntReg { r: lr, .. }) = nodes.get(l) {
+                    if let Some(AddrKind::Addr(Ion::Imm(a))) = lr.addrs.first() {
+                        if (0..MEM_LEN as i64).contains(a) && rng.chance(4, 5) {
+                            mem[*a as usize] = *rng.pick(&[1u8, 2, 4, 8, 4, 8, 3, 0, 16, 200]);
+                        }
+                    }
+                }
+            }
+        }
+    }
+    // NaNs with payloads (quiet and signalling, both signs) so that raw-bit transport is exercised
+    if rng.chance(1, 3) {
+        for _ in 0..3 {
+            let a = rng.below((MEM_LEN - 8) as u64) as usize;
+            let pat: u64 = *rng.pick(&[0x7ff0_0000_0000_1234u64, 0xfff4_0000_0000_5678, 0x7ff8_0000_0000_0000, 0xfff8_dead_beef_0001, 0x7ff0_0000_2000_0000]);
+            let bytes = match rng.below(4) {
+                0 => pat.to_le_bytes().to_vec(),
+                1 => pat.to_be_bytes().to_vec(),
+                2 => ((pat >> 32) as u32 | 0x0040_0001).to_le_bytes().to_vec(),
+                _ => ((pat >> 32) as u32 | 0x0000_0100).to_be_bytes().to_vec(),
+            };
+            mem[a..a + bytes.len()].copy_from_slice(&bytes);
+        }
+    }
+    Graph { nodes, slots, mem, ro, ghosts, cached_xml: std::cell::Cell::new(false) }
 }
 
 fn ion_static(i: &Ion) -> Option<i64> {
@@ -1859,7 +2007,7 @@ pub fn gen_op(rng: &mut Rng, g: &Graph, cfg: &GenCfg) -> Op {
     let int_v = |rng: &mut Rng| if rng.chance(1, 6) { rng.interesting_i64() } else { *rng.pick(&SMALL) + rng.below(3) as i64 };
     let float_v = |rng: &mut Rng| {
         if rng.chance(1, 12) {
-            *rng.pick(&[f64::MAX, f64::INFINITY, f64::NEG_INFINITY, f64::from_bits(0x7ff8_0000_0000_0000), 1e300, 9.3e18, -9.3e18, 4e9])
+            *rng.pick(&[f64::MAX, f64::INFINITY, f64::NEG_INFINITY, f64::from_bits(0x7ff8_0000_0000_0000), f64::from_bits(0x7ff0_0000_0000_1234), f64::from_bits(0xfff4_0000_0000_5678), 1e300, 9.3e18, -9.3e18, 4e9])
         } else {
             *rng.pick(&FLOATS)
         }
@@ -1896,6 +2044,11 @@ pub fn gen_op(rng: &mut Rng, g: &Graph, cfg: &GenCfg) -> Op {
         if rng.chance(1, 4) || matches!(k, Kind::Register { .. }) {
             let len = match r.length {
                 Ion::Imm(l) if (0..64).contains(&l) && !rng.chance(1, 8) => l as usize,
+                // dynamic length: guess from the initial image (often still right)
+                Ion::Node(l) if rng.chance(2, 3) => match g.static_addr(l) {
+                    Some(a) if (0..g.mem.len() as i64).contains(&a) => g.mem[a as usize] as usize,
+                    _ => rng.below(10) as usize,
+                },
                 _ => rng.below(10) as usize,
             };
             return match rng.below(5) {
@@ -2051,6 +2204,66 @@ pub fn c03_oracles(g: &Graph, im: &mut Impl, op: &Op, ans: &Ans, log_before: usi
                 let only_last_failed = got.iter().take(got.len().saturating_sub(1)).all(|x| x.1);
                 if !prefix_ok || !only_last_failed || okc == exp_addrs.len() && !exp_addrs.is_empty() && expect.iter().all(|e| e.is_some()) {
                     return Some(("fanout".into(), format!("failed write must stop at the first failing target: expected a prefix of {exp_addrs:?}, device saw {got:?}")));
+                }
+            }
+            None
+        }
+        // ── pValue read: the value is the value of the pValue node (never of a copy) ──
+        (Op::IntValue(_), Kind::Integer { vk: VK::PValue { p, .. }, .. }) => {
+            if let Ans::Int(v) = ans {
+                rep.count("oracle:pvalue-read");
+                match im.probe_num_as_int(g, *p) {
+                    Some(e) if e == *v => {}
+                    e => return Some(("pvalue".into(), format!("value {v} but pValue N{p} reads {e:?}"))),
+                }
+            }
+            None
+        }
+        (Op::FloatValue(_), Kind::Float { vk: VK::PValue { p, .. }, .. }) => {
+            if let Ans::Float(v) = ans {
+                rep.count("oracle:pvalue-read-float");
+                match im.probe_num_as_float(g, *p) {
+                    Some(e) if e.to_bits() == v.to_bits() => {}
+                    e => return Some(("pvalue".into(), format!("value {v:?} but pValue N{p} reads {e:?}"))),
+                }
+            }
+            None
+        }
+        // ── Float pIndex selection ──
+        (Op::FloatValue(_), Kind::Float { vk: VK::PIndex { sel, entries, dflt }, .. }) => {
+            if let Ans::Float(v) = ans {
+                let i = match (g.is_int(*sel), im.probe(&Op::IntValue(*sel))) {
+                    (true, Ans::Int(i)) => i,
+                    _ => return Some(("pindex".into(), "float value obtained although the selector has no value".into())),
+                };
+                rep.count("oracle:pindex-read-float");
+                if let Son::Node(p) = Access::select(entries, dflt, i) {
+                    if let Some(e) = im.probe_num_as_float(g, *p) {
+                        if e.to_bits() != v.to_bits() {
+                            return Some(("pindex".into(), format!("selector = {i}: expected the value of N{p} = {e:?}, got {v:?}")));
+                        }
+                    }
+                }
+            }
+            None
+        }
+        // ── String nodes: value comes from / goes to the pValue string node ──
+        (Op::StrValue(_), Kind::Str { value: Son::Node(p), .. }) => {
+            if g.is_str(*p) {
+                rep.count("oracle:string-read");
+                let e = im.probe(&Op::StrValue(*p));
+                if e.show() != ans.show() {
+                    return Some(("string".into(), format!("value {} but pValue N{p} reads {}", ans.show(), e.show())));
+                }
+            }
+            None
+        }
+        (Op::StrSet(_, v), Kind::Str { value: Son::Node(p), .. }) => {
+            if ans.is_ok() && matches!(g.kind(*p), Some(Kind::Str { value: Son::Slot(_), .. })) {
+                rep.count("oracle:string-write");
+                let e = im.probe(&Op::StrValue(*p));
+                if e != Ans::Str(v.clone()) {
+                    return Some(("string".into(), format!("wrote {v:?} but pValue N{p} holds {}", e.show())));
                 }
             }
             None
@@ -2328,6 +2541,80 @@ pub fn pre_state(g: &Graph, im: &mut Impl, op: &Op) -> PreState {
     p
 }
 
+// ───────────────────────────── host NaN conventions ─────────────────────────────
+
+/// The model carries floats as raw bits and follows the x86-64 rules for NaN results.  Two facts
+/// depend on the compiled code, not on IEEE-754: which operand wins when both are NaNs (the
+/// compiler may commute) and the bit pattern of the default NaN of an invalid operation.  They are
+/// measured here on the real formula evaluator and handed to the model (`nancfg` line).  Everything
+/// else about NaNs (one NaN operand: that operand quieted; unary functions) is checked against the
+/// model's fixed rules and reported as `nan-calibration-unexpected` if the host deviates.
+pub fn nan_cfg_line() -> &'static (String, u64) {
+    use cameleon_genapi::formula::{parse, EvaluationResult, Expr};
+    use std::collections::HashMap;
+    static CELL: std::sync::OnceLock<(String, u64)> = std::sync::OnceLock::new();
+    CELL.get_or_init(|| {
+        let na = f64::from_bits(0x7ff0_0000_0000_1234);
+        let nb = f64::from_bits(0xfff4_0000_0000_5678);
+        let quiet = |x: f64| x.to_bits() | 0x0008_0000_0000_0000;
+        let eval = |txt: &str, a: f64, b: f64| -> u64 {
+            let mut env: HashMap<&str, Expr> = HashMap::new();
+            env.insert("A", Expr::Float(a));
+            env.insert("B", Expr::Float(b));
+            match parse(txt).eval(&env) {
+                Ok(EvaluationResult::Float(f)) => f.to_bits(),
+                _ => 0,
+            }
+        };
+        let mut unexpected = 0u64;
+        let mut prefs = String::new();
+        for op in ["+", "-", "*", "/", "%"] {
+            let r = eval(&format!("A {op} B"), na, nb);
+            if r == quiet(na) {
+                prefs.push('L');
+            } else if r == quiet(nb) {
+                prefs.push('R');
+            } else {
+                prefs.push('L');
+                unexpected += 1;
+            }
+            // one NaN operand: that operand, quieted
+            if eval(&format!("A {op} B"), na, 2.5) != quiet(na) || eval(&format!("A {op} B"), 2.5, nb) != quiet(nb) {
+                unexpected += 1;
+            }
+        }
+        let inf = f64::INFINITY;
+        let inv = [
+            eval("A + B", inf, -inf),
+            eval("A - B", inf, inf),
+            eval("A * B", 0.0, inf),
+            eval("A / B", 0.0, 0.0),
+            eval("A % B", 1.0, 0.0),
+            eval("SQRT(A)", -1.0, 0.0),
+        ];
+        if eval("A % B", inf, 1.0) != inv[4] {
+            unexpected += 1;
+        }
+        // unary functions on a signalling NaN: quieted (Q) or returned unchanged (K)
+        let mut unary = String::new();
+        for f in ["FLOOR", "CEIL", "ROUND", "TRUNC", "SQRT"] {
+            let r = eval(&format!("{f}(A)"), na, 0.0);
+            if r == quiet(na) {
+                unary.push('Q');
+            } else if r == na.to_bits() {
+                unary.push('K');
+            } else {
+                unary.push('Q');
+                unexpected += 1;
+            }
+        }
+        if eval("-A", na, 0.0) != na.to_bits() ^ (1 << 63) || eval("ABS(B)", 0.0, nb) != nb.to_bits() & !(1 << 63) || eval("SGN(A)", na, 0.0) != na.to_bits() {
+            unexpected += 1;
+        }
+        (format!("nancfg {prefs} {unary} {}", inv.iter().map(|b| format!("{b:016x}")).collect::<Vec<_>>().join(" ")), unexpected)
+    })
+}
+
 // ───────────────────────────── runner ─────────────────────────────
 
 pub const FUEL: usize = 48;
@@ -2362,12 +2649,65 @@ pub fn run_case(mode: &Mode, rep: &mut Report, seed: u64, case: u64, max_ops: u6
     if verbose {
         eprintln!("{}", g.xml());
     }
-    let mut lines: Vec<(String, String)> = g.protocol("").into_iter().map(|l| (l.trim_start().to_string(), "ok".to_string())).collect();
+    let (nan_line, nan_unexpected) = nan_cfg_line();
+    if *nan_unexpected > 0 {
+        rep.count("nan-calibration-unexpected");
+    }
+    let mut lines: Vec<(String, String)> = vec![(nan_line.clone(), "ok".to_string())];
+    lines.extend(g.protocol("").into_iter().map(|l| (l.trim_start().to_string(), "ok".to_string())));
+    let mut log_hash = FNV_INIT;
     for k in &g.nodes {
         rep.count(&format!("node:{}", k.tag()));
     }
     rep.count(&format!("graph:nodes={}", g.nodes.len().min(20)));
+    // shapes the audit asked to see in the evidence: dynamic pLength, formula environments with
+    // duplicate / shadowing names, variable accessors
+    for k in &g.nodes {
+        if let Some(r) = k.reg() {
+            match &r.length {
+                Ion::Imm(_) => rep.count("shape:length=immediate"),
+                Ion::Node(p) => match g.nodes.get(*p) {
+                    Some(Kind::IntReg { .. }) => rep.count("shape:pLength=IntReg-on-device-memory"),
+                    Some(Kind::SwissKnife { .. }) => rep.count("shape:pLength=constant-IntSwissKnife"),
+                    _ => rep.count("shape:pLength=other"),
+                },
+            }
+        }
+        let fm = match k {
+            Kind::Converter { fm, .. } | Kind::SwissKnife { fm, .. } => fm,
+            _ => continue,
+        };
+        let base = |s: &str| s.split('.').next().unwrap_or("").to_string();
+        let vnames: Vec<String> = fm.vars.iter().map(|(n, _)| n.clone()).collect();
+        if (1..vnames.len()).any(|i| vnames[..i].contains(&vnames[i])) {
+            rep.count("shape:formula-duplicate-variable-name");
+        }
+        if vnames.iter().any(|n| matches!(base(n).as_str(), "TO" | "FROM")) {
+            rep.count("shape:formula-variable-named-TO/FROM");
+        }
+        if fm.consts.iter().any(|(c, _)| vnames.contains(c)) {
+            rep.count("shape:formula-constant-shadows-variable");
+        }
+        if fm.exprs.iter().any(|(e, _)| vnames.contains(e) || fm.consts.iter().any(|(c, _)| c == e)) {
+            rep.count("shape:formula-expression-shadows-variable-or-constant");
+        }
+        if (1..fm.exprs.len()).any(|i| fm.exprs[..i].iter().any(|(e, _)| *e == fm.exprs[i].0)) {
+            rep.count("shape:formula-duplicate-expression-name");
+        }
+        for (n, _) in &fm.vars {
+            if let Some(pos) = n.find('.') {
+                let acc = &n[pos + 1..];
+                let tag = if acc.starts_with("Enum.") { "Enum.<entry>" } else { acc };
+                rep.count(&format!("shape:variable-accessor=.{tag}"));
+            }
+        }
+    }
     let acc = Access { g: &g };
+    // C18: the same graph and history under the default cache (impl vs impl, access queries)
+    let mut imc = if mode.spec { Impl::<DefaultCacheStore>::build_cached(&g).ok() } else { None };
+    if mode.spec && imc.is_none() {
+        rep.count("cache-twin:unbuildable");
+    }
     let mut canon = String::new();
     let mut nontrivial = false;
     let mut dead = false;
@@ -2403,6 +2743,8 @@ pub fn run_case(mode: &Mode, rep: &mut Report, seed: u64, case: u64, max_ops: u6
         };
         let log_before = im.dev.log.len();
         let ans = im.apply(&op);
+        log_hash = log_digest_from(log_hash, &im.dev.log[log_before..]);
+        let pin = format!(" L{}:{:08x} M{:08x}", im.dev.log.len(), log_hash & 0xffff_ffff, fnv_bytes(FNV_INIT, &im.dev.mem) & 0xffff_ffff);
         let tag = g.nodes[op.node()].tag();
         let opname = op.line().split(' ').next().unwrap().to_string();
         rep.count(&format!("op:{opname}"));
@@ -2414,6 +2756,66 @@ pub fn run_case(mode: &Mode, rep: &mut Report, seed: u64, case: u64, max_ops: u6
         if matches!(ans, Ans::Err("NotAnEntry")) {
             // not callable through the public API: nothing to compare
             continue;
+        }
+        // cached twin: access queries must answer the same with DefaultCacheStore
+        if let Some(c) = imc.as_mut() {
+            let ans_c = c.apply(&op);
+            let is_access = matches!(op, Op::IsReadable(_) | Op::IsWritable(_) | Op::IsImplemented(_) | Op::IsAvailable(_) | Op::IsLocked(_));
+            if is_access {
+                rep.count("cache-twin:access-compared");
+                if ans_c != ans {
+                    rep.violation(
+                        json!({"oracle": "cache-access", "kind": tag}),
+                        &format!("`{}` on {tag}: {} without cache, {} under the default cache (every register declares the port as pInvalidator)", op.line(), ans.show(), ans_c.show()),
+                        replay.clone(),
+                    );
+                }
+            } else if ans_c.show() != ans.show() || c.dev.mem != im.dev.mem {
+                // a difference outside access queries is C04's subject: stop comparing this case
+                rep.count("cache-twin:diverged-on-other-call(C04)");
+                imc = None;
+            }
+        }
+        // distribution of access answers: kind x restriction x answer
+        let offers_access_query = g.kind(op.node()).map_or(false, |k| {
+            k.is_int() || k.is_float() || k.is_str() || k.is_bool() || k.is_enum() || (matches!(op, Op::IsWritable(_)) && matches!(k, Kind::Command { .. }))
+        });
+        if matches!(op, Op::IsReadable(_) | Op::IsWritable(_)) && !offers_access_query {
+            rep.count(&format!("acc|{tag}|{}|n/a (kind has no such query)", if matches!(op, Op::IsReadable(_)) { "rd" } else { "wr" }));
+        }
+        if matches!(op, Op::IsReadable(_) | Op::IsWritable(_)) && offers_access_query {
+            let q = if matches!(op, Op::IsReadable(_)) { "rd" } else { "wr" };
+            let a = match &ans {
+                Ans::Bool(true) => "T".to_string(),
+                Ans::Bool(false) => "F".to_string(),
+                Ans::Err(e) => format!("Err-{e}"),
+                _ => "other".to_string(),
+            };
+            rep.count(&format!("acc|{tag}|{q}|{a}"));
+            if let Some(k) = g.kind(op.node()) {
+                let b = k.base();
+                let t = |c: Option<usize>, im: &mut Impl| match c {
+                    None => "-",
+                    Some(c) => match acc.ctl(im, c) {
+                        Some(true) => "T",
+                        Some(false) => "F",
+                        None => "E",
+                    },
+                };
+                let (i, av, l) = (t(b.imp, &mut im), t(b.avail, &mut im), t(b.locked, &mut im));
+                let am = k.reg().map_or("n/a", |r| r.am.map_or("-", |m| m.s()));
+                rep.count(&format!("restr|iam={}|am={am}|imp={i}|avail={av}|lock={l}|{q}|{}", b.iam.map_or("-", |m| m.s()), &a[..1]));
+            }
+            if let Ans::Err(e) = &ans {
+                rep.count(&format!("access-error:{q}:{e}"));
+                if mode.spec && !acc.trouble(&mut im, op.node(), FUEL + 1) {
+                    rep.violation(
+                        json!({"oracle": "access-error-unexplained", "kind": tag, "error": e}),
+                        &format!("`{}` on {tag} failed with {e} although every controlling node, selector, value source and formula variable it may consult has a value and the right kind", op.line()),
+                        replay.clone(),
+                    );
+                }
+            }
         }
         if let Some(s) = spec_before {
             shown.push_str(&format!(" spec={s}"));
@@ -2436,6 +2838,8 @@ pub fn run_case(mode: &Mode, rep: &mut Report, seed: u64, case: u64, max_ops: u6
         }
         canon.push_str(&op.line());
         canon.push(';');
+        // pin the access log and the device image after every call (so that the first diverging call is named)
+        shown.push_str(&pin);
         lines.push((format!("op {}", op.line()), shown));
         ops.push(op);
         if ans == Ans::Panic {
@@ -2444,7 +2848,7 @@ pub fn run_case(mode: &Mode, rep: &mut Report, seed: u64, case: u64, max_ops: u6
         }
     }
     let _ = dead;
-    lines.push(("end".into(), format!("mem={:016x} log={}:{:016x}", fnv_bytes(FNV_INIT, &im.dev.mem), im.dev.log.len(), log_digest(&im.dev.log))));
+    lines.push(("end".into(), format!("mem={} log={}:{:016x}", hex(&im.dev.mem), im.dev.log.len(), log_digest(&im.dev.log))));
     let key = format!("{}|{}", g.protocol("").join("|"), canon);
     rep.case(&key, nontrivial);
     if case % 97 == 0 {
